@@ -6,6 +6,7 @@ import DarkluaModel.C08.Thm
 import DarkluaModel.C06.Whole
 import DarkluaModel.C06.CompoundWhole
 import DarkluaModel.C06.InterpFormat
+import DarkluaModel.C06.CompoundGuard
 /-!
 # C06 — the Luau-lowering rules preserve program behaviour: property theorems (local lemmas)
 
@@ -738,6 +739,13 @@ theorem compound_partial (b : Block) (hg : okB Compound.cGuard b) (ρ : ExtOracl
     runProgram ρ n externs (RemoveCompoundAssign.apply b) = runProgram ρ n externs b :=
   Compound.remove_compound_refines_lift b hg ρ n externs
 
+/-- the same with the DECIDABLE guard `Compound.gB` (what the driver evaluates on every generated
+program: op `c06.guard`; `Compound.gB_sound`) -/
+theorem compound_partial_decidable (b : Block) (hg : Compound.gB b = true) (ρ : ExtOracle N) (n : Nat)
+    (externs : List String) :
+    runProgram ρ n externs (RemoveCompoundAssign.apply b) = runProgram ρ n externs b :=
+  compound_partial b (Compound.gB_sound b hg) ρ n externs
+
 /-- `getT().x += 1; getT()[key()] *= y` -/
 def compoundSample : Block :=
   .mk [.cassign .add (.field (.call (.var "getT") none .tuple []) "x") (.num 0x3FF0000000000000),
@@ -758,7 +766,8 @@ theorem isTmp_length {n : String} (h : Compound.isTmp n) : 13 ≤ n.length := by
   have : "__DARKLUA_VAR".length = 13 := by decide
   simp [RemoveCompoundAssign.varPrefix, String.length_append, this]
 
--- … and the sample satisfies the guard
+-- … and the sample satisfies the guard (decidably, and by hand)
+example : Compound.gB compoundSample = true := by decide +kernel
 example : okB Compound.cGuard compoundSample := by
   have key : ∀ n, Compound.isTmp n → n ≠ "getT" ∧ n ≠ "key" ∧ n ≠ "y" := fun n hn => by
     have := isTmp_length hn
